@@ -19,6 +19,7 @@ from . import c11_replay as rp
 INVARIANTS = ["TypeOK", "NoHole", "KeysAligned", "FileWithinDb", "IndexConsistency", "PendingCovers",
               "RoundTrip", "FullDecodes", "AppendEqualsFull"]
 PROPERTIES = ["RoundTripStep", "Refines"]
+PROBLEM_ACTIONS = ("ExportProblem", "ReloadProblem")
 ACTIONS = ("Store", "StoreMore", "Export")  # Reload, Update: see taken()
 
 # name -> kind ; the names must belong to HDFStore!Universe
@@ -28,6 +29,9 @@ CONFIGS = {
     "C": (3, {"@g": "matrix", "f": "scalar"}),
     "D": (3, {"@f": "vector", "f": "scalar", "g": "size1"}),
     "E": (1, {"@f": "vector", "@g": "matrix", "c": "scalar", "f": "scalar", "obj": "scalar"}),
+    # the database of an OptimizationProblem, exported with the problem or alone
+    "P": (2, {"@f": "vector", "f": "scalar"}, True),
+    "Q": (2, {"@f": "vector", "c": "size1", "f": "scalar"}, True),
 }
 
 
@@ -36,10 +40,12 @@ def tla_set(xs):
 
 
 def cfg(conf, *, props=True, constraint=None):
-    nkeys, kinds = CONFIGS[conf]
+    nkeys, kinds = CONFIGS[conf][:2]
+    with_problem = len(CONFIGS[conf]) > 2
     by = lambda kind: tla_set(n for n, k in kinds.items() if k == kind)  # noqa: E731
     s = (f"CONSTANTS NKeys = {nkeys}\n Names = {tla_set(kinds)}\n Scalars = {by('scalar')}\n"
          f" Size1s = {by('size1')}\n Vectors = {by('vector')}\n Matrices = {by('matrix')}\n"
+         f" WithProblem = {'TRUE' if with_problem else 'FALSE'}\n"
          "SPECIFICATION Spec\nCHECK_DEADLOCK FALSE\n")
     for i in INVARIANTS:
         s += f"INVARIANT {i}\n"
@@ -60,24 +66,33 @@ def taken(r, actions=("Reload", "Update")):
             raise MachineryError(f"vacuity: action {action} never taken")
 
 
-def model_check(ck: Check):
-    """Exhaustive TLC runs: every reachable state of the bounded models satisfies the invariants, every
-    export step leaves Decode(file) = db = Decode(full export), and HDFStoreImpl refines HDFStore."""
-    runs = ["A", "C", "E"] + (["B", "D"] if ck.thorough else [])
-    for conf in runs:
-        taken(ck.tlc("HDFStoreImpl", cfg(conf), workers=8, timeout=1500, require_actions=ACTIONS))
-    # the abstract module on its own (its invariants are about content only)
-    nkeys, kinds = CONFIGS["A"]
-    s = cfg("A", props=False)
+def explore(ck: Check, conf, *, dump):
+    """Exhaustive TLC run: every reachable state of the bounded model satisfies the invariants, every
+    export step leaves Decode(file) = db = Decode(full export), and HDFStoreImpl refines HDFStore.
+    With dump, the labelled state graph is written for the tour."""
+    with_problem = len(CONFIGS[conf]) > 2
+    r = ck.tlc("HDFStoreImpl", cfg(conf), workers=8, timeout=1700, dump=dump, require_actions=ACTIONS)
+    taken(r, ("Reload", "Update") + (PROBLEM_ACTIONS if with_problem else ()))
+    return r
+
+
+def abstract_check(ck: Check, conf):
+    """the abstract module on its own (its invariants are about content only)"""
+    s = cfg(conf, props=False)
     s = "\n".join(line for line in s.splitlines() if not line.startswith("INVARIANT")) + "\n"
     s += "INVARIANT TypeOK\nINVARIANT PendingCovers\nINVARIANT RoundTrip\nPROPERTY AppendEqualsFull\n"
-    taken(ck.tlc("HDFStore", s, workers=8, timeout=600, require_actions=ACTIONS))
+    taken(ck.tlc("HDFStore", s, workers=8, timeout=600, require_actions=ACTIONS),
+          ("Reload", "Update") + (PROBLEM_ACTIONS if len(CONFIGS[conf]) > 2 else ()))
 
 
 def tour(ck: Check, conf, *, max_len, io_budget, nproc, rng):
-    """dump the graph of HDFStoreImpl for `conf`, build the walks and replay them on real files."""
-    r = ck.tlc("HDFStoreImpl", cfg(conf, props=False), workers=8, timeout=1500, dump=True, count=False,
-               coverage=False)
+    """model-check HDFStoreImpl for `conf`, dump its graph, build the walks, replay them on real files."""
+    import time
+
+    t0 = time.time()
+    r = explore(ck, conf, dump=True)
+    t1 = time.time()
+    with_problem = len(CONFIGS[conf]) > 2
     g = Graph(ck.work / "HDFStoreImpl.dot")
     if len(g.states) != r.distinct:
         raise MachineryError(f"graph dump has {len(g.states)} states, TLC found {r.distinct}")
@@ -94,7 +109,8 @@ def tour(ck: Check, conf, *, max_len, io_budget, nproc, rng):
         walks, covered, wanted = t.walks(max_len, want=is_io, budget=io_budget, rng=rng)
         sampled = covered < wanted
     rp.set_graph(g)
-    jobs = [(i, w, "" if i % 2 == 0 else "hist/run_1", str(ck.work)) for i, w in enumerate(walks)]
+    t2 = time.time()
+    jobs = [(i, w, "" if i % 2 == 0 else "hist/run_1", str(ck.work), with_problem) for i, w in enumerate(walks)]
     if nproc > 1:
         ctx = mp.get_context("fork")
         with ctx.Pool(nproc) as pool:
@@ -105,23 +121,26 @@ def tour(ck: Check, conf, *, max_len, io_budget, nproc, rng):
     steps = sum(x["steps"] for x in results)
     for x in results:
         for v in x["viol"]:
-            sig = {"what": v["what"], "ops": v["ops"], "config": conf}
+            sig = {"what": v["what"], "ops": v["ops"], "config": conf, "node": v["node"]}
             if len(v["ops"]) > 12:
                 sig["ops"] = v["ops"][-12:]
             ck.violation(v["clause"], sig, dict(v["detail"], ops=v["ops"], config=conf,
                                                 kinds=CONFIGS[conf][1]))
         if not x["viol"]:
             ck.traces += 1
-    for x in results[:2]:
+    for x in results[:1]:
         w = walks[x["idx"]]
         ck.sample({"config": conf, "node": jobs[x["idx"]][2] or "(root)",
-                   "ops": [rp.op_name(g.edges[k][2], g.edges[k][3]) + (str(list(map(_js, g.edges[k][3]))) if g.edges[k][2].startswith("Store") else "")
+                   "ops": [rp.op_name(g.edges[k][2], g.edges[k][3])
+                           + (str(list(map(_js, g.edges[k][3]))) if g.edges[k][2].startswith("Store") else "")
                            for k in w[:14]], "walk_length": len(w)})
     info = {"states": len(g.states), "edges": n_edges, "io_edges": n_io, "walks": len(walks),
             "wanted_edges_covered": covered, "wanted_edges": wanted, "steps_replayed": steps,
             "exports": sum(x["exports"] for x in results), "reloads": sum(x["reloads"] for x in results),
-            "sampled": sampled}
+            "sampled": sampled,
+            "wall_s": {"tlc": round(t1 - t0, 1), "graph+tour": round(t2 - t1, 1), "replay": round(time.time() - t2, 1)}}
     ck.extra.setdefault("tours", {})[conf] = info
+    (ck.work / "HDFStoreImpl.dot").unlink()
     return info
 
 
@@ -131,16 +150,19 @@ def _js(x):
 
 def run(ck: Check):
     rng = random.Random(ck.seed)
-    model_check(ck)
     nproc = 16 if ck.thorough else 8
     if ck.thorough:
-        plans = [("A", 80, None), ("C", 80, None), ("E", 80, None), ("B", 120, 60000)]
+        plans = [("A", 80, None), ("C", 80, None), ("E", 80, None), ("P", 80, None), ("Q", 100, 40000),
+                 ("B", 120, 60000)]
+        only_tlc = ["D"]
     else:
-        plans = [("A", 60, None), ("C", 60, 3000), ("E", 60, 1500)]
-    all_full = True
+        plans = [("A", 60, 4000), ("C", 60, 1500), ("E", 60, 1500), ("P", 60, 1500)]
+        only_tlc = []
+    abstract_check(ck, "P")
     for conf, max_len, budget in plans:
-        info = tour(ck, conf, max_len=max_len, io_budget=budget, nproc=nproc, rng=rng)
-        all_full = all_full and not info["sampled"]
+        tour(ck, conf, max_len=max_len, io_budget=budget, nproc=nproc, rng=rng)
+    for conf in only_tlc:
+        explore(ck, conf, dump=False)
     from . import c11_aux
 
     c11_aux.run(ck, rng)
